@@ -641,7 +641,7 @@ def prov_sampler_setup(repo, tier="quick"):
     for n in icfg.nodes:
         if n.kind == "stmt" and isinstance(n.ast, ast.Assign) and isinstance(n.ast.targets[0], ast.Subscript):
             tt = il.canon(n.ast.targets[0], n.id)
-            if tt[0] == "sub" and tt[1][0] in ("attr", "var", "call", "dict", "param") and ast.unparse(n.ast.targets[0].value) == "self.fragment_masses":
+            if tt[0] == "sub" and ast.unparse(n.ast.targets[0].value) == "self.fragment_masses":
                 store = (n, tt, il.canon(n.ast.value, n.id))
     if store is None:
         obs.append(ob_fail(oid, ini, construct="no self.fragment_masses[name] = ... in __init__", instance="masses:store",
@@ -679,6 +679,15 @@ def prov_sampler_setup(repo, tier="quick"):
                     if bool(d.value.value) != empty:
                         flag_ok = False
         if flag_ok is None:
+            # the table is chosen by the same condition that guards the computation:  masses = {} if C else given;  if C: masses[name] = ...
+            tbl = tt[1]
+            def _empty(x):
+                return x == ("dict", ()) or (is_call(x, "dict") is not None and not is_call(x, "dict")[0])
+            for test, pol, gid in gs:
+                ct_ = il.canon(test, gid)
+                if tbl[0] == "ifexp" and tbl[1] == ct_:
+                    flag_ok = (_empty(tbl[2]) and pol and tbl[3] == ("param", "fragment_masses")) or (_empty(tbl[3]) and not pol and tbl[2] == ("param", "fragment_masses"))
+        if flag_ok is None:
             obs.append(ob_undecided(oid, ini, n.ast, construct="condition of the mass computation", instance="masses:when",
                                     reason="cannot identify the flag that says whether masses are derived from the elements"))
         else:
@@ -710,6 +719,16 @@ def prov_sampler_setup(repo, tier="quick"):
             c = v[0] == "call" and v[2] == ("fn", dflt) and v[3]
             evv = elem_of(v[3][0]) if c else None
             okf = bool(c and evv and evv[0] == "value" and strip_wrappers(evv[1]) == ("param", "fragment_reactivities"))
+    # ... or in one expression:  self.fragment_reactivities = {<key>: _set_bond_order_defaults(probs) for key, probs in fragment_reactivities.items()}
+    for n in icfg.nodes:
+        if n.kind == "stmt" and isinstance(n.ast, ast.Assign) and ast.unparse(n.ast.targets[0]) == "self.fragment_reactivities" and isinstance(n.ast.value, ast.DictComp):
+            v = il.canon(n.ast.value, n.id)
+            if v[0] == "comp" and v[1] == "dict" and len(v[4]) == 1 and not v[4][0][2]:
+                val = v[3][1][1]
+                c = val[0] == "call" and val[2] == ("fn", dflt) and val[3]
+                evv = elem_of(val[3][0]) if c else None
+                if c and evv and evv[0] == "value" and strip_wrappers(evv[1]) == ("param", "fragment_reactivities"):
+                    okf, wheref = True, n
     (obs.append(ob_ok(oid, ini, wheref.ast, construct="self.fragment_reactivities[key] = _set_bond_order_defaults(probs)", instance="defaults:fragment_reactivities",
                       reason="conditional reactivities are keyed with order suffixes")) if okf else
      obs.append(ob_fail(oid, ini, wheref.ast if wheref else None, construct="fragment_reactivities stored without order-suffix defaulting", instance="defaults:fragment_reactivities",
@@ -762,7 +781,12 @@ def tt_order_defaults(repo, tier="quick"):
             m = method_call(it, "items")
             if m and m[0] == ("param", "fragment_reactivities"):
                 loop = n
+    comp_assign = None
     if loop is None:
+        for n in ini.cfg.nodes:
+            if n.kind == "stmt" and isinstance(n.ast, ast.Assign) and ast.unparse(n.ast.targets[0]) == "self.fragment_reactivities" and isinstance(n.ast.value, ast.DictComp):
+                comp_assign = n
+    if loop is None and comp_assign is None:
         obs.append(ob_undecided(oid, ini, construct="loop over fragment_reactivities.items()", instance="conditional-keys", reason="loop not found"))
         return obs
     table = {}
@@ -776,15 +800,19 @@ def tt_order_defaults(repo, tier="quick"):
     ev = Evaluator(call_hook=helper_inliner(ini), store_hook=store)
     arg = {"$A": {"$B": 1.0}, ">x2": {"<x2": 0.5, "<y": 0.5}, "<": {}}
     want = {"$A1": {"$B1": 1.0}, ">x2": {"<x2": 0.5, "<y1": 0.5}, "<1": {}}
+    where_ast = loop.ast if loop is not None else comp_assign.ast
     try:
-        ev.block([loop.ast], {"fragment_reactivities": arg})
+        if loop is not None:
+            ev.block([loop.ast], {"fragment_reactivities": arg})
+        else:
+            table = ev.eval(comp_assign.ast.value, {"fragment_reactivities": arg})
         got = {k: ({(kk.concrete() if isinstance(kk, AStr) else kk): vv for kk, vv in v.items()} if isinstance(v, dict) else v) for k, v in table.items()}
     except Raised as r:
         got = "raises " + r.exc_name
     except Unsupported as err:
-        raise AnalysisError("conditional reactivity loop outside the evaluator's language: %s" % err, ini.where(loop.ast))
-    (obs.append(ob_ok(oid, ini, loop.ast, construct="fragment_reactivities: outer and inner keys get the suffix", instance="conditional-keys",
+        raise AnalysisError("conditional reactivity loop outside the evaluator's language: %s" % err, ini.where(where_ast))
+    (obs.append(ob_ok(oid, ini, where_ast, construct="fragment_reactivities: outer and inner keys get the suffix", instance="conditional-keys",
                       reason="conditional reactivities are looked up under descriptors with order digits")) if got == want else
-     obs.append(ob_fail(oid, ini, loop.ast, construct="conditional table becomes %s" % str(got)[:120], instance="conditional-keys",
+     obs.append(ob_fail(oid, ini, where_ast, construct="conditional table becomes %s" % str(got)[:120], instance="conditional-keys",
                         reason="expected %s" % str(want)[:140])))
     return obs
